@@ -17,6 +17,7 @@ Decided:
     driver object (take / = None) only after the device was told to detach it, on every path - including the paths on
     which a device-written response makes a teardown command fail (C20.Z4; GPU driver; configurations with `alloc`).
  T7 device-advertised window lengths bound every configuration access (C13.G1/G5 tables).
+ T8 a completion poll the device makes fail frees nothing that is still posted (C04.P8).
 Not decided: absence of panics (the property allows clean panics); arbitrary callers of the unsafe queue API.
 """
 from .common import *
